@@ -6,7 +6,7 @@ from lib.coqterm import cN, cbytes, clist
 
 ID = "C12"
 QUICK_N = 2500
-THOROUGH_N = 50000
+THOROUGH_N = 12500
 SHARD = 250
 COQ_PRELUDE = "From MV Require Import Model.ErrorPage.\n"
 RULE = ("10% whole exchanges through a real HttpLayer (Expect: 100-continue or not, interim 1xx responses, request/response streaming, "
